@@ -897,7 +897,12 @@ func verifyHash256(quote *pb.QuoteV4) error {
 	qeAuthData := qeReportCertificationData.GetQeAuthData().GetData()
 	attestKey := quote.GetSignedData().GetEcdsaAttestationKey()
 
-	concatOfAttestKeyandQeAuthData := append(attestKey, qeAuthData...)
+	// Concatenate into a buffer of our own: appending to attestKey would write into whatever spare
+	// capacity lies behind it (for a parsed quote, the rest of the signed data), which is memory
+	// the quote message still references and other goroutines may be reading.
+	concatOfAttestKeyandQeAuthData := make([]byte, 0, len(attestKey)+len(qeAuthData))
+	concatOfAttestKeyandQeAuthData = append(concatOfAttestKeyandQeAuthData, attestKey...)
+	concatOfAttestKeyandQeAuthData = append(concatOfAttestKeyandQeAuthData, qeAuthData...)
 	var hashedMessage []byte
 	hashedConcatOfAttestKeyandQeAuthData := sha256.Sum256(concatOfAttestKeyandQeAuthData)
 	hashedMessage = hashedConcatOfAttestKeyandQeAuthData[:]
